@@ -23,7 +23,9 @@ pub struct Bulkhead<S> {
 
 impl<S> Bulkhead<S> {
     /// Creates a new bulkhead service.
-    pub(crate) fn new(inner: S, config: BulkheadConfig) -> Self {
+    pub(crate) fn new(inner: S, mut config: BulkheadConfig) -> Self {
+        // tokio's semaphore panics above MAX_PERMITS; a limit that large means "unlimited" anyway
+        config.max_concurrent_calls = config.max_concurrent_calls.min(Semaphore::MAX_PERMITS);
         let semaphore = Arc::new(Semaphore::new(config.max_concurrent_calls));
         Self {
             inner,
